@@ -19,6 +19,21 @@ class FileWriter:
         self.base = MARK * (findex + 1)
         self.lines = []
         self.markers = {}      # marker value -> [line, expected]
+        self.repeats = {}      # repeated int value -> [lines where it was written]
+        self.repeat_bytes = {} # repeated bytes literal -> [lines]
+
+    def repeat_value(self, rng, pool, maxn=4):
+        """A marker value that is written on SEVERAL different lines (2-4): reuse an open group or start one."""
+        open_ = [v for v, ls in pool.items() if len(ls) < maxn and self.lineno not in ls]
+        if open_ and rng.random() < 0.7:
+            v = rng.choice(open_)
+        else:
+            v = self.base + 500000 + len(self.repeats) + len(self.repeat_bytes)
+            if pool is self.repeat_bytes:
+                v = "rb%d" % v
+            pool[v] = []
+        pool[v].append(self.lineno)
+        return v
 
     @property
     def lineno(self):
@@ -148,6 +163,8 @@ class Gen:
         self.budget -= 1
         sp = " " * ind
         simple = ["pop", "pop2", "multi", "bytes", "assert", "comment", "store", "lambda", "compr", "triple", "walrus"]
+        if expected and ctx.get("repeat"):
+            simple += ["repint", "repint", "repbytes"]
         if ctx.get("app", True):
             simple.append("log")
         nested = ["if", "ifelse", "if3", "cond", "for", "while"]
@@ -167,7 +184,11 @@ class Gen:
             kinds += ["break"]
         k = rng.choice(kinds)
         A = lambda t: w.add(sp + t, expected)
-        if k == "pop":
+        if k == "repint":
+            A("pt.Pop(pt.Int(%d))," % w.repeat_value(rng, w.repeats))
+        elif k == "repbytes":
+            A('pt.Pop(pt.Bytes("%s")),' % w.repeat_value(rng, w.repeat_bytes))
+        elif k == "pop":
             A("pt.Pop(pt.Int({M})),")
         elif k == "pop2":
             A("pt.Pop(pt.Int({M}) %s pt.Int({M}))," % rng.choice(["+", "*", "-", "|"]))
@@ -340,16 +361,27 @@ class Gen:
         w.add("mv2 = pt.ScratchVar(pt.TealType.uint64)")
         ctx = dict(avail)
         ctx["vars"] = ["mv1", "mv2"]
+        ctx["repeat"] = True
         if kind == "expr":
             w.add("")
             w.add("def build():")
             w.add("    pre_a = pt.Pop(pt.Int({M})); pre_b = pt.Pop(pt.Int({M}))")
             w.add("    return pt.Seq(")
             w.add("        pre_a, pre_b,")
+            for _rep in range(2):
+                A_ = w.repeat_value(rng, w.repeats)
+                w.add("        pt.Pop(pt.Int(%d))," % A_)
+                B_ = w.repeat_value(rng, w.repeat_bytes)
+                w.add('        pt.Pop(pt.Bytes("%s")),' % B_)
             while self.budget > 0:
                 self.stmts(w, 8, 1, ctx, n=3)
                 if rng.random() < 0.3:
                     w.filler(rng.randint(0, filler), rng, code_ok=False)
+            # close every repeat group that has a single line so far: write it once more on its own line
+            for pool, fmt in ((w.repeats, "        pt.Pop(pt.Int(%d)),"), (w.repeat_bytes, '        pt.Pop(pt.Bytes("%s")),')):
+                for v in [v for v, ls in pool.items() if len(ls) < 2]:
+                    pool[v].append(w.lineno)
+                    w.add(fmt % v)
             w.add("        pt.Int({M}),")
             w.add("    )")
         else:
@@ -392,7 +424,10 @@ class Gen:
             files[fw.relpath] = fw.text()
             for m, (ln, exp) in fw.markers.items():
                 markers[m] = [fw.relpath, ln, exp]
-        return {"files": files, "markers": markers, "kind": kind, "min_version": self.min_version, "app_only": self.app_only}
+        main_w = writers[-1]
+        return {"files": files, "markers": markers, "kind": kind, "min_version": self.min_version, "app_only": self.app_only,
+                "repeats": {str(v): [main_w.relpath, ls] for v, ls in main_w.repeats.items()},
+                "repeat_bytes": {v: [main_w.relpath, ls] for v, ls in main_w.repeat_bytes.items()}}
 
 
 SESSION_HEADER = """import os
